@@ -8,6 +8,8 @@ Everything observable goes into ONE log in the order in which it happens:
   called with ..., left ...) / d (a destination handler got an event) / end (assignment returned).
 Records outside a begin..end pair are 'stray' (delivery not synchronous).
 """
+from collections import ChainMap, UserDict
+from collections.abc import MutableMapping
 from fractions import Fraction
 import itertools
 
@@ -22,8 +24,10 @@ RULE = ("a sender block (custom SBlock calling set_output from its init, from an
         "or a FuncBlock evaluated by the real simulator task, its function returning the next value of the "
         "sequence) with 0..3 on_output and 0..3 on_every_output events (given as None / single Event / list / "
         "tuple) to 4 recording SBlocks, with and without filter pipelines built from scripts (accept, reject, "
-        "set/delete/copy a key -- returning the dict, a new dict or mutating in place --, accept-if-truthy, "
-        "not-from-UNDEF); value sequences over 1/True/1.0/0/None/()/(1,)/'a' and further ints, floats, bools, "
+        "set/delete/copy a key -- returning the dict, a new mapping (dict / UserDict / ChainMap) or mutating in "
+        "place --, accept-if-truthy, not-from-UNDEF, clear (d.clear() / return {} / delete every key: an EMPTY "
+        "mapping is data, not a rejection), replace by a new mapping of any size; 648 fixed scenarios with "
+        "pipelines whose result is empty/replaced); value sequences over 1/True/1.0/0/None/()/(1,)/'a' and further ints, floats, bools, "
         "strings, tuples, lists and UNDEF (refused). quick: ALL sequences of length 4 (hence all shorter ones as "
         "prefixes) over the 6 values {1,True,1.0,0,None,()} x all fan-outs (0..3 x 0..3 for SBlocks, 0..3 for "
         "CBlocks) without filters + 3000 random scenarios (length <= 60, filters, shared destinations); thorough: "
@@ -32,7 +36,7 @@ RULE = ("a sender block (custom SBlock calling set_output from its init, from an
 ASSUMPTIONS = [
     "destinations accept every event and never make the sender assign again while they are served "
     "(re-entrant destinations are excluded, DESIGN.md section 6)",
-    "filters are the scripted ones; they return a dict with string keys or a non-mapping value",
+    "filters are the scripted ones; they return a MutableMapping (dict, UserDict, ChainMap; any size) with string keys or a non-mapping value",
     "values: None, bools, ints, floats (exact rationals), strings, flat tuples/lists of these; no NaN, "
     "no objects with a user-defined __eq__",
     "UNDEF as an assigned value is exercised on the sequential sender with a direct set_output call only",
@@ -165,6 +169,16 @@ edzed.CBlock.eval_block = _eval_block       # process-local wrapper
 
 # ---------------------------------------------------------------- filters from scripts
 
+def _wrap(mapping, mode):
+    """a NEW mapping returned by a filter: dict / UserDict / ChainMap ("a dict, precisely a MutableMapping")"""
+    kind = (mode // 3) % 3
+    if kind == 1:
+        return UserDict(mapping)
+    if kind == 2:
+        return ChainMap(mapping)
+    return mapping
+
+
 def make_filter(script, mode, slot, idx, fidx):
     op = script[0]
 
@@ -186,20 +200,35 @@ def make_filter(script, mode, slot, idx, fidx):
             return d.get(script[1])
         if op == 'U':
             return d.get(script[1]) is not UNDEF
+        if op == 'M':               # a new mapping of any size replaces the data
+            return _wrap({k: dec(v) for k, v in script[1].items()}, mode)
+        if op == 'X':               # an EMPTY mapping is still a mapping
+            how = mode % 4
+            if how == 0:
+                d.clear()
+                return d
+            if how == 1:
+                return _wrap({}, mode)
+            if how == 2:
+                for k in list(d):
+                    del d[k]
+                return d
+            d.clear()
+            return True
         if mode % 3 == 0:           # edit in place, return the dict
             edit(d)
             return d
         if mode % 3 == 1:           # edit in place, return a true value
             edit(d)
             return True
-        new = dict(d)               # leave the argument alone, return a new dict
+        new = dict(d)               # leave the argument alone, return a new mapping
         edit(new)
-        return new
+        return _wrap(new, mode)
 
     def efilter(d):
         LOG.append(('f', slot, idx, fidx, dict(d)))
         ret = body(d)
-        if isinstance(ret, dict):
+        if isinstance(ret, MutableMapping):     # docs: the returned mapping becomes the event data
             left = dict(ret)
         elif ret:
             left = dict(d)
@@ -207,11 +236,13 @@ def make_filter(script, mode, slot, idx, fidx):
             left = None
         LOG.append(('fr', slot, idx, fidx, left))
         return ret
-    efilter.__name__ = 'script_' + '_'.join(script)
+    efilter.__name__ = 'script_' + script[0]
     return efilter
 
 
 def filt_token(script):
+    if script[0] == 'M':
+        return 'M~' + enc_data({k: dec(v) for k, v in script[1].items()})
     return '~'.join(script)
 
 
@@ -260,7 +291,16 @@ def mk_events(slot, n, dests=None, filters=None):
 SCRIPTS = [['A'], ['R'], ['S', 'x', 'i5'], ['S', 'value', 's7a'], ['S', 'source', 's71'], ['D', 'previous'],
            ['D', 'x'], ['D', 'trigger'], ['C', 'value', 'x'], ['C', 'x', 'y'], ['C', 'previous', 'value'],
            ['T', 'value'], ['T', 'previous'], ['T', 'x'], ['U', 'previous'], ['U', 'value'], ['U', 'y'],
-           ['S', 'previous', 'u'], ['S', 'x', 't[i1,n]']]
+           ['S', 'previous', 'u'], ['S', 'x', 't[i1,n]'],
+           ['X'], ['X'], ['M', {}], ['M', {'value': 'i7'}], ['M', {'k': 'n', 'z': 't[i1]'}],
+           ['D', 'value'], ['D', 'source']]
+
+# pipelines whose result is an EMPTY (or a replaced) mapping: delivered, never a rejection
+EMPTY_PIPES = [
+    [['X']], [['M', {}]], [['D', 'trigger'], ['D', 'previous'], ['D', 'value'], ['D', 'source']],
+    [['X'], ['S', 'a', 'i1']], [['M', {}], ['A']], [['S', 'x', 'i5'], ['X']], [['M', {'value': 'i7'}], ['T', 'value']],
+    [['X'], ['T', 'value']], [['M', {}], ['M', {'k': 'n'}]],
+]
 
 
 def random_scenario(rng, maxlen):
@@ -277,7 +317,7 @@ def random_scenario(rng, maxlen):
             else:
                 fl = [list(rng.choice(SCRIPTS)) for _ in range(rng.choice([1, 1, 2, 2, 3, 4]))]
             out.append({'dest': rng.randrange(NPROBES), 'filters': fl,
-                        'fmode': rng.randrange(12), 'byname': rng.random() < 0.3})
+                        'fmode': rng.randrange(36), 'byname': rng.random() < 0.3})
         return out
     pool = rng.choice([SIX, MORE, MORE, ['i1', 'b1', 'f1/1'], ['i0', 'b0', 'f0/1', 'n', 't[]', 's', 'l[]'],
                        ['t[i1]', 't[b1]', 't[f1/1]', 'l[i1]', 'i1']])
@@ -317,6 +357,14 @@ def scenarios(rng, tier):
             for a in cfan:
                 yield {'kind': 'C', 'on': mk_events('o', a), 'every': [], 'forms': ['auto', 'auto'],
                        'via': 'sim', 'ops': list(seq)}
+    for pipe in EMPTY_PIPES:
+        for fmode in range(36):
+            ev = {'dest': fmode % NPROBES, 'filters': pipe, 'fmode': fmode}
+            plain = {'dest': (fmode + 1) % NPROBES, 'filters': []}
+            yield {'kind': 'S', 'on': [ev, plain], 'every': [plain, ev], 'forms': ['auto', 'auto'], 'via': 'event',
+                   'ops': ['i1', 'b1', 'i0', 't[]']}
+            yield {'kind': 'C', 'on': [plain, ev], 'every': [], 'forms': ['auto', 'auto'], 'via': 'sim',
+                   'ops': ['i1', 'b1', 'i0', 't[]']}
     for k in range(nrandom):
         yield random_scenario(rng, maxlen)
 
@@ -613,6 +661,11 @@ def oracle(scn, res):
             if rejected:
                 continue
             r = allr[pos] if pos < len(allr) else None
+            if nf and (r is None or r[0] != 'd' or r[2] != f'{key[0]}{key[1]}'):
+                bad = _v('handler_receives_filter_output', f'{where}: event {key}: the filters left the mapping {data!r} '
+                         f'(a returned mapping of any size, also an empty one, is the new data, not a rejection) '
+                         f'but the handler was not called, got {r!r:.200}')
+                break
             if r is None or r[0] != 'd' or r[2] != f'{key[0]}{key[1]}' or r[1] != f"p{ev['dest']}":
                 bad = _v('configured_order', f'{where}: event {key}: expected a delivery of {key[0]}{key[1]} to '
                          f'p{ev["dest"]}, got {r!r:.200}')
